@@ -119,7 +119,7 @@ def run(ctx, only=None):
 
 
 def search(ctx, result):
-    cs = cases(ctx, 4000)
+    cs = [make_case([w, "  Resolution = 192"]) for w in regex_witnesses()] + cases(ctx, 4000)
     r = run_cases("C10s", cs, IN_TYPE, OUT_TYPE, VERDICT, SPEC, shard_size=50)
     return dict(viol=r["viol"], evaluations=r["evaluations"], note="re-sampled %d cases" % len(cs))
 
